@@ -239,3 +239,21 @@ package state
 //@ func State.VerifyTx
 //@   property C07
 //@   ensures positive_verdict_needs_verification: result0 ==> sel(sel(passed, tx), 0) > sel(sel(old(passed), tx), 0) || (t.verifyMarked(tx) && t.verifyMarked#1(tx))
+
+// ======================= C03: a block spends every output at most once =======================
+//@ macro blkKey(block, a, i) = utxo.GenUtxoKey(block.Transactions[a].TxInputs[i].FromAddr, block.Transactions[a].TxInputs[i].RefTxid, block.Transactions[a].TxInputs[i].RefOffset)
+//@ macro blkSeen(block, U, n) = (forall a int, i int :: 0 <= a && a < n && 0 <= i && i < len(block.Transactions[a].TxInputs) ==> in(U, blkKey(block, a, i)) && U[blkKey(block, a, i)])
+//@ macro blkDistinct(block, n) = (forall a int, i int, b int, j int :: 0 <= a && a < n && 0 <= b && b < n && 0 <= i && i < len(block.Transactions[a].TxInputs) && 0 <= j && j < len(block.Transactions[b].TxInputs) && (a != b || i != j) ==> blkKey(block, a, i) != blkKey(block, b, j))
+// A block is played only on the state's tip, and only if no two inputs of its
+// transactions reference the same output; pool transactions are undone only when
+// they conflict with the block or are too old.
+//@ func State.processUnconfirmTxs
+//@   property C03
+//@   local hasConflict bool
+//@   local tooDelayed bool
+// (Both facts are asserted where the pool is loaded: every successful run passes that call.)
+//@   at Tx.SortUnconfirmedTx assert only_on_the_tip: bytesEq(block.PreHash, t.latestBlockid)
+//@   at Tx.SortUnconfirmedTx assert no_output_spent_twice_in_block: blkDistinct(block, len(block.Transactions))
+//@   at State.undoUnconfirmedTx assert only_conflicting_or_delayed_are_undone: (hasConflict || tooDelayed) && $0 == unconfirmTx && $3 == batch
+//@   loop 1 invariant seen_distinct: 0 <= $i && $i <= len(block.Transactions) && UTXOKeysInBlock != nil && (forall k string :: in(UTXOKeysInBlock, k) ==> UTXOKeysInBlock[k]) && blkSeen(block, UTXOKeysInBlock, $i) && blkDistinct(block, $i)
+//@   loop 2 invariant seen_distinct_partial: 0 <= $i && $i <= len(tx.TxInputs) && 0 <= $i#1 && $i#1 < len(block.Transactions) && tx == block.Transactions[$i#1] && UTXOKeysInBlock != nil && (forall k string :: in(UTXOKeysInBlock, k) ==> UTXOKeysInBlock[k]) && blkSeen(block, UTXOKeysInBlock, $i#1) && blkDistinct(block, $i#1) && (forall i int :: 0 <= i && i < $i ==> in(UTXOKeysInBlock, blkKey(block, $i#1, i))) && (forall i int, j int :: 0 <= i && i < j && j < $i ==> blkKey(block, $i#1, i) != blkKey(block, $i#1, j)) && (forall a int, i int, j int :: 0 <= a && a < $i#1 && 0 <= i && i < len(block.Transactions[a].TxInputs) && 0 <= j && j < $i ==> blkKey(block, a, i) != blkKey(block, $i#1, j))
